@@ -13,7 +13,8 @@ from . import C02, C04_ilp
 RULE = ("seeded elections with <=10 projects (<=8 in the quick tier), integer and fractional costs, every additive measure (integer- and "
         "fraction-valued), initial allocations, Profile/MultiProfile; primal/dual run in-process and diffed with the Lean model (set and "
         "value); ILP path run in a child process with every solver answer re-validated exactly against the model it was given (faults "
-        "discarded); predicate = brute force over all subsets; non-trivial = >=4 undecided projects and the optimum is not 'take everything'")
+        "discarded); plus calls passing sat_profile= (alone, next to a sat_class naming another measure, for a part of the electorate, "
+        "without voters) on both algorithms, judged by the documented precedence (predicate only); predicate = brute force over all subsets; non-trivial = >=4 undecided projects and the optimum is not 'take everything'")
 ASSUMPTIONS = ["additive measures", "feasible initial allocation"]
 TRUSTED = ["CBC answers re-validated exactly by harness/mipcheck.py; solver faults are discarded, as the property states",
            "ILP path: the only solver hypothesis of the theorems is WelfareILP.SolverSpec (an answer is an optimal feasible point of the program given, "
@@ -22,19 +23,19 @@ TRUSTED = ["CBC answers re-validated exactly by harness/mipcheck.py; solver faul
 
 
 def profit_for(it_case, cfg):
-    class _It:
-        pass
-
-    it = _It()
-    it.case, it.cfg = it_case, cfg
-    U = C02.utilities_for(it)
-    return {p: sum((U[v][p] for v in range(len(it_case.ballots))), F(0)) for p in it_case.names}
+    """total satisfaction per project — of the satisfaction profile the caller handed over, if any: the rule documents
+    that sat_class is then disregarded (ruleprops.effective)"""
+    ecase, ecfg = ruleprops.effective(it_case, cfg)
+    U = C02.utilities_of(ecase, ecfg)
+    return {p: sum((U[v][p] for v in range(len(ecase.ballots))), F(0)) for p in it_case.names}
 
 
 def predicate_pd(it):
     case, cfg = it.case, it.cfg
     kind, val = it.ans
     sig = {"rule": "maxw", "algo": "pd", "sat": cfg.get("sat")}
+    if cfg.get("sp_sat"):
+        sig["sat_profile_arg"] = cfg.get("sp_mode")
     if kind == "err":
         return [violation(f"welfare maximiser raised {val}: {it.raw!r}", case, cfg, impl=rules.canon(it.ans), sig=dict(sig, err=val))]
     profit = profit_for(case, cfg)
@@ -87,30 +88,78 @@ def run(ctx, compare=True, n_pd=None, n_ilp=None):
             if ans.startswith("solver-fault"):
                 ctx.solver_faults += 1
                 continue
-            sig = {"rule": "maxw", "algo": "ilp", "sat": cfg.get("sat"), "res": cfg["res"]}
-            if not ans.startswith("ok"):
-                ctx.violations.append(violation("ILP welfare maximiser failed: " + ans, case, cfg, impl=ans, sig=dict(sig, err=True)))
-                continue
-            profit = profit_for(case, cfg)
-            init = cfg.get("init") or []
-            best, arg = oracle.welfare_opt(case, profit, init)
-            opt_sets = sorted(sorted(case.rank[p] for p in s) for s in arg)
-            parsed = core.parse_outcome(ans)
-            if cfg["res"]:
-                W = sorted(parsed)
-                if W not in opt_sets:
-                    ctx.violations.append(violation("ILP outcome is not a welfare-maximal feasible allocation", case, cfg, impl=W, expected=opt_sets[:4], sig=sig))
-            else:
-                body = ans[2:].strip()
-                got = sorted(sorted(int(x) for x in part.split(",") if x != "") for part in body.split("|"))
-                if got != opt_sets:
-                    ctx.violations.append(violation("irresolute ILP outcomes are not exactly the set of optima", case, cfg, impl=got, expected=opt_sets, sig=sig))
-                if len(arg) >= 2:
-                    ctx.nontrivial.add(case.key() + "ilp")
+            vs, n_opt = judge_ilp(case, cfg, ans)
+            ctx.violations.extend(vs)
+            if not cfg["res"] and n_opt >= 2:
+                ctx.nontrivial.add(case.key() + "ilp")
             ctx.sample(f"maxw-ilp {json.dumps(ruleprops.cfg_json(cfg))} on {case.enc_common()} -> {ans}", cap=8)
+        # round 4 (drawn last: the seeds of the streams above are unchanged)
+        run_satprofile(ctx, box, m_hi, ctx.scale(700, 6000), ctx.scale(90, 800) if n_ilp else 0)
     finally:
         ctx.solver_faults += 0
         box.close()
+
+
+def judge_ilp(case, cfg, ans):
+    """the property's clauses on one answer of the ILP path (canonical string of the worker) -> (violations, number of optima)"""
+    sig = {"rule": "maxw", "algo": "ilp", "sat": cfg.get("sat"), "res": cfg["res"]}
+    if cfg.get("sp_sat"):
+        sig["sat_profile_arg"] = cfg.get("sp_mode")
+    if not ans.startswith("ok"):
+        return [violation("ILP welfare maximiser failed: " + ans, case, cfg, impl=ans, sig=dict(sig, err=True))], 0
+    profit = profit_for(case, cfg)
+    init = cfg.get("init") or []
+    best, arg = oracle.welfare_opt(case, profit, init)
+    opt_sets = sorted(sorted(case.rank[p] for p in s) for s in arg)
+    parsed = core.parse_outcome(ans)
+    if cfg["res"]:
+        W = sorted(parsed)
+        if W not in opt_sets:
+            return [violation("ILP outcome is not a welfare-maximal feasible allocation", case, cfg, impl=W, expected=opt_sets[:4], sig=sig)], len(arg)
+        return [], len(arg)
+    body = ans[2:].strip()
+    got = sorted(sorted(int(x) for x in part.split(",") if x != "") for part in body.split("|"))
+    if got != opt_sets:
+        return [violation("irresolute ILP outcomes are not exactly the set of optima", case, cfg, impl=got, expected=opt_sets, sig=sig)], len(arg)
+    return [], len(arg)
+
+
+def satprofile_pairs(ctx, n, m_hi):
+    """calls that pass sat_profile=: alone, next to a sat_class naming another measure, holding only some voters of the
+    profile argument, or holding no voter.  The documented precedence makes the satisfaction profile the one whose welfare
+    is maximised (sat_class is disregarded): the optimum is taken over its voters and its measure"""
+    rng = ctx.rng
+    for _ in range(n):
+        if rng.random() < 0.6:
+            case = core.gen_election(rng, btypes=("app", "app", "card", "cum", "ord"), m_lo=1, m_hi=m_hi)
+        else:
+            case = core.gen_tight_election(rng, btypes=("app", "app", "card"), m=(3, min(6, m_hi)))
+        cfg = rulegen.gen_satprofile_cfg(rng, case, "maxw", allow_refuse=False)
+        ctx.count("stream", "sat_profile-argument:" + cfg["sp_mode"])
+        yield case, cfg
+
+
+def run_satprofile(ctx, box, m_hi, n_pd, n_ilp):
+    """predicate only (the Lean model is not asked: its welfare is that of one voter list and one measure)"""
+    ruleprops.run_items(ctx, satprofile_pairs(ctx, n_pd, m_hi), predicate_pd, nontrivial, compare=False, keep=False)
+    for case, cfg in satprofile_pairs(ctx, n_ilp, min(m_hi, 6)):
+        if ctx.budget_s is not None and ctx.elapsed() > ctx.budget_s:
+            break
+        cfg = dict(cfg, algo="ilp", res=ctx.rng.random() < 0.5)
+        if len(case.names) <= len(set(cfg.get("init") or [])):
+            continue  # no variable at all: CBC answers status OTHER for the empty program (a solver fault)
+        if not cfg["res"] and len(oracle.welfare_opt(case, profit_for(case, cfg), cfg.get("init") or [])[1]) > C04_ilp.MAX_OPTIMA:
+            cfg["res"] = True  # e.g. a satisfaction profile without voters: every feasible allocation is an optimum
+        ans = box.ask({"case": case.to_json(), "cfg": ruleprops.cfg_json(cfg)})
+        ctx.evaluations += 1
+        ctx.count("rule", "maxw-ilp-" + ("res" if cfg["res"] else "irres"))
+        if ans.startswith("solver-fault"):
+            ctx.solver_faults += 1
+            continue
+        vs, n_opt = judge_ilp(case, cfg, ans)
+        ctx.violations.extend(vs)
+        if not cfg["res"] and n_opt >= 2:
+            ctx.nontrivial.add(case.key() + "ilp-sp")
 
 
 def search(ctx, disagreements):
@@ -122,6 +171,20 @@ def replay(payload):
         return history.replay(payload)
     case = Case.from_json(payload["case"])
     cfg = ruleprops.cfg_from_json(payload["cfg"])
+    if not ruleprops.well_formed(case, cfg):
+        return True, ruleprops.NOT_AN_INPUT
+    if cfg.get("algo") == "ilp" and cfg.get("sp_sat"):
+        box = solverbox.Box()
+        try:
+            ans = box.ask({"case": case.to_json(), "cfg": ruleprops.cfg_json(cfg)})
+        finally:
+            box.close()
+        if ans.startswith("solver-fault"):
+            return True, "solver fault on replay (discarded, as the property states)"
+        vs, _ = judge_ilp(case, cfg, ans)
+        if vs:
+            return False, "still fails: " + vs[0]["what"]
+        return True, "property holds on the replayed input: " + ans
     if cfg.get("algo") == "ilp":
         return C04_ilp.replay(case, cfg)
     built = rules.Built(case, multi=cfg.get("multi", False))
